@@ -95,7 +95,13 @@ def t1_bodies(ws):
            [("if", (ws, [("param", "1", [])], ws), (ws, [p1], ws), (ws, [px], ws))],
            [("ifeq", (ws, [p1], ws), (ws, [lit("1")], ws), (ws, [lit("one")], ws), (ws, [p1], ws))],
            [("switch", (ws, [p1], ws), [([w([lit("a")], ws)], w([lit("A")], ws)), ([w([lit("01")], ws)], w([lit("N")], ws))], w([px], ws))],
-           [("switch", (ws, [p1], ws), [([w([lit("a")], ws), w([lit("b")], ws)], w([lit("AB")], ws))], None), lit("|")]]
+           [("switch", (ws, [p1], ws), [([w([lit("a")], ws), w([lit("b")], ws)], w([lit("AB")], ws))], None), lit("|")],
+           # values composed of several pieces with a blank BETWEEN them (only the two ends of a value are trimmed)
+           [("switch", (ws, [lit("a "), p1], ws), [([w([lit("a b")], ws)], w([lit("SP")], ws)), ([w([lit("ab")], ws)], w([lit("GL")], ws))], w([lit("D")], ws))],
+           [("switch", (ws, [p1, lit(" b")], ws), [([w([lit("ab")], ws)], w([lit("GL")], ws)), ([w([lit("a b")], ws)], w([lit("SP")], ws))], w([lit("D")], ws))],
+           [("switch", (ws, [lit("1 "), ("call", "T2", [(None, "", [lit("2")], "")]), lit(" "), p1], ws), [([w([lit("1 [2] b")], ws)], w([lit("SP")], ws)), ([w([lit("1[2]b")], ws)], w([lit("GL")], ws))], None)],
+           [("ifeq", (ws, [lit("a "), p1], ws), (ws, [p1, lit(" b")], ws), (ws, [lit("same")], ws), (ws, [lit("differ")], ws))],
+           [("if", (ws, [lit(" "), p1, lit(" ")], ws), (ws, [lit("x "), p1, lit(" y")], ws), (ws, [px, lit(" z")], ws))]]
     return out
 
 
